@@ -137,7 +137,7 @@ func NewMemoryDatabase(cfg *MemoryDatabaseCfg) (MemoryDatabase, error) {
 		familyTime:    cfg.FamilyTime,
 		name:          cfg.Name,
 		timeSeriesIDs: roaring.New(),
-		createdTime:   fasttime.UnixNano(),
+		createdTime:   uniqueCreatedTime(),
 		statistics:    metrics.NewMemDBStatistics(cfg.Name),
 	}
 	return db, nil
@@ -497,4 +497,24 @@ func (md *memoryDatabase) NumOfSeries() int {
 	defer md.lock.RUnlock()
 
 	return int(md.timeSeriesIDs.GetCardinality())
+}
+
+// lastCreatedTime is the created time of last memory database.
+var lastCreatedTime atomic.Int64
+
+// uniqueCreatedTime returns an unique created time for memory database.
+// NOTE: created time is the key of memory database's slot range under shard level time series index,
+// fasttime only moves forward every few milliseconds, two memory databases(different families) created in the same
+// tick cannot share it, else after one of them is flushed the data of the other is invisible and never flushed.
+func uniqueCreatedTime() int64 {
+	for {
+		now := fasttime.UnixNano()
+		last := lastCreatedTime.Load()
+		if now <= last {
+			now = last + 1
+		}
+		if lastCreatedTime.CompareAndSwap(last, now) {
+			return now
+		}
+	}
 }
